@@ -92,7 +92,7 @@ for s in scen:
     for k, v in (s.get('counters') or {}).items():
         counters[k] = counters.get(k, 0) + v
     for smp in (s.get('samples') or [])[:1]:
-        samples.append({'scenario': s['scenario'], **smp})
+        samples.append({'scenario': s['scenario'], **smp} if isinstance(smp, dict) else {'scenario': s['scenario'], 'case': smp})
     for v in s.get('violations') or []:
         v['scenario'] = s['scenario']
         k = is_known(v['sig'])
